@@ -72,6 +72,14 @@ claim("C17",
       "versions mapping, same root key; flag-list codec; sibling serialisers of cross-section options omitting exactly None. YAML fidelity per value is not decided.",
       COMMON_NOTE, "dominance + ownership + def-use dataflow + sibling agreement", "DESIGN.md section 3 C17")
 
+claim("C06",
+      "Static conformance analysis (partial, exact): who writes the successfulCompletion attribute and who can close with a true value (whole-tree who-may-call); the failure chain "
+      "Case.run -> Operator.__exit__ -> interactAllError -> DatabaseInterface.interactError -> Database.close with unconditional calls and the flag/flush/close/move sequence on every path; "
+      "group-name format vs regex and every h5db key through getH5GroupName; overwrite refusal dominating create_dataset; lock-step collection of data indices and objects in getHistories; "
+      "merge/split copying; the two cooperating per-node write sites; unresolved names (star-import aware) in safeMove/safeCopy and the database modules. File contents after a fault at an "
+      "arbitrary instruction and HDF5 durability are not decided.",
+      COMMON_NOTE, "who-may-call/ownership + dominance + path conditions + format/regex agreement + name resolution", "DESIGN.md section 3 C06")
+
 NA_REASON = {}
 
 
